@@ -15,7 +15,7 @@ import (
 
 const c19Slack = 2048 // bytes of growth per doubling tolerated (big.Int length jitter, amortised slice growth)
 
-var c19Patterns = []string{"ping-pong", "one-directional", "bursts", "forged-flood", "refresh", "smp", "errors", "garbage-flood", "one-way-delay", "error-refresh-idle", "forged-interleaved", "forged-run"}
+var c19Patterns = []string{"ping-pong", "one-directional", "bursts", "forged-flood", "refresh", "smp", "errors", "garbage-flood", "one-way-delay", "error-refresh-idle", "forged-interleaved", "forged-run", "silent-rekey"}
 
 func init() {
 	Register(&PropDef{
@@ -48,6 +48,9 @@ func c19Config(rc *RunCtx) {
 		f = 300
 	}
 	rc.Parties = []PartyCfg{{KeyIdx: 0, Pol: pol, Peer: 1, Frag: f, ErrHandler: r.Bool()}, {KeyIdx: 1, Pol: pol, Peer: 0, Frag: f, ErrHandler: r.Bool()}}
+	if c19Patterns[rc.Cfg["pattern"]%len(c19Patterns)] == "silent-rekey" {
+		rc.Parties[0].Pol |= PolWSStart
+	}
 	if c19Patterns[rc.Cfg["pattern"]%len(c19Patterns)] == "forged-run" {
 		// error replies exist only with an error message handler; a run of rejected messages is where they could pile up
 		rc.Parties[0].ErrHandler, rc.Parties[1].ErrHandler = true, true
@@ -203,6 +206,17 @@ func c19Run(rc *RunCtx) *Violation {
 			if i%8 == 0 {
 				w.Drain(100000)
 			}
+		case "silent-rekey":
+			// B only listens; A writes one text per session and is made to re-key at once, again and
+			// again, without the 60 s query window in the way: a whitespace-tagged clear text (anybody
+			// can inject one) makes A, which has the whitespace-start policy, send a DH-Commit
+			send(a)
+			w.Drain(100000)
+			tagged := append([]byte("rekey"), refotr.WhitespaceTag(rc.Cfg["version"] != 3, rc.Cfg["version"] != 2)...)
+			r := a.Receive(tagged)
+			w.Enqueue(a, r)
+			w.Drain(100000)
+			w.Fault("rekey-by-whitespace-tag")
 		case "forged-run":
 			// nothing but rejected messages between two checkpoints: no successful call in between
 			if i == 1 {
